@@ -45,9 +45,21 @@ def ncases(tier):
 
 def variant_of(rng, gt):
     """Return (variant, new_gt, info) for a changed definition."""
-    v = rng.choice(['unchanged', 'extended', 'extended', 'shrunk', 'shrunk'])
+    v = rng.choice(['unchanged', 'extended', 'extended', 'shrunk', 'shrunk',
+                    'reworded'])
     g2 = copy.deepcopy(gt)
     info = {'variant': v, 'removed_tasks': [], 'new_atoms': []}
+    if v == 'reworded':
+        # same outputs, new message text for the custom outputs of one task
+        # (a pooled task that has completed one keeps it completed)
+        cands = [n for n in g2['names'] if g2['tasks'][n]['outputs']]
+        if cands:
+            n = rng.choice(cands)
+            for o, spec in g2['tasks'][n]['outputs'].items():
+                spec['message'] = spec['message'] + ' (v2)'
+            info['reworded'] = n
+        else:
+            v = info['variant'] = 'unchanged'
     if v == 'extended':
         if rng.random() < 0.7:
             # new arrow X => Y inside an existing section (X before Y)
